@@ -110,3 +110,18 @@ Example ex_run_closed :
   | _ => False
   end.
 Proof. vm_compute. reflexivity. Qed.
+
+(* the hypotheses of the singleton theorem are satisfiable: in R2 only "/*" matches "/b", so whatever
+   the iteration order, handler 1 is the one called *)
+Example ex_singleton : forall who c, Chosen R2 (call 1 "/b" ":1.1") who c -> who = HRoute 1.
+Proof.
+  intros who c Hch.
+  assert (Hne1 : pattern_new #"/*" <> []) by apply pattern_new_nonempty.
+  assert (Hne2 : pattern_new #"/a/:x" <> []) by apply pattern_new_nonempty.
+  destruct (chosen_singleton R2 (call 1 "/b" ":1.1") who c #"/b" (pattern_new #"/*") 1) as [H _]; auto.
+  - apply ex_WF.
+  - vm_compute. auto.
+  - intros Hn. apply (matches_none _ _ Hne1) in Hn. vm_compute in Hn. discriminate.
+  - intros p h Hin Hm. vm_compute in Hin. destruct Hin as [Hin|[Hin|[]]]; inversion Hin; subst; [reflexivity|].
+    exfalso. apply Hm. apply (matches_none _ _ Hne2). vm_compute. reflexivity.
+Qed.
